@@ -22,14 +22,14 @@ def programs(ctx, n):
     for i in range(n):
         atoms = rng.sample(names, rng.randint(3, 6))
         plain = [a for a in atoms if not a.startswith('-')][:3] or ['a', 'b']
-        p = gen.core_program(rng, plain, (2, 5), future_head=0.6, lookahead=0.7, maxfut=3)
+        p = gen.core_program(rng, plain, (1, 3), future_head=0.7, lookahead=0.4, maxfut=3)
         for a in atoms:
             if rng.random() < 0.5:
                 p.append({'part': rng.choice(gen.PARTS[:3]), 'head': ('norm', a, rng.randint(1, 3)), 'body': [(rng.choice('pn'), ('patom', rng.choice(plain), rng.randint(0, 1)))]})
         for _ in range(rng.randint(0, 2)):
-            p.append(c04.head_rule(rng, plain, 3))
-        for _ in range(rng.randint(0, 2)):
-            p.append({'part': rng.choice(gen.PARTS), 'head': ('cons',), 'body': [(rng.choice('pnm'), ('tel', gen.formula(rng, plain, 3)))]})
+            p.append(c04.head_rule(rng, plain, 2))
+        if rng.random() < 0.4:
+            p.append({'part': rng.choice(gen.PARTS), 'head': ('norm', 'ww', 0), 'body': [(rng.choice('nm'), ('tel', gen.formula(rng, plain, 3)))]})
         if rng.random() < 0.5:
             # arithmetic in n-fold prefixes: same term shape, different value from program to program
             e = rng.choice(['1+2', '3-1', '1+1', '2-1', '2+1', '4-2', '1+0', '3-2', '0+3'])
@@ -68,8 +68,8 @@ def run(ctx):
         rs = [canon(x) for x in pool.run([{'cmd': 'solve', 'texts': t, 'imax': H + 1, 'istop': 'UNKNOWN'} for _, t in progs], timeout=60)]
         if base_t is None:
             base_t, base_s = rt, rs
-            for (p, t), x in zip(progs, rt):
-                if x[0] == 'ok':
+            for (p, t), x, y in zip(progs, rt, rs):
+                if x[0] == 'ok' and y[0] == 'ok' and y[1] != '[]':
                     nontriv.add(tuple(t))
             continue
         for (p, t), a, b, c, d in zip(progs, base_t, rt, base_s, rs):
@@ -103,7 +103,7 @@ def run(ctx):
     cov = {'evaluations': len(progs) * 2 * len(seeds) + sum(len(m[1]) for m in metas), 'distinct_nontrivial': len(nontriv),
            'rule': 'programs with 3-6 future predicates (arguments, classical negation), look-ahead constraints of depth <= 3, head formulas and body formulas, split over 1-3 input texts; '
                    'transform output and answer sets (horizons 0..%d) compared across PYTHONHASHSEED in %s (fresh interpreters), %d random histories of 12 calls in one process (half of them '
-                   'interleaved in 3 threads); non-trivial = distinct accepted program' % (H, seeds, nh),
+                   'interleaved in 3 threads); non-trivial = distinct accepted program with at least one answer set' % (H, seeds, nh),
            'samples': [{'texts': progs[i][1]} for i in (0, 1)]}
     return {'counterexamples': cex[:8], 'coverage': cov}
 
